@@ -13,7 +13,7 @@ class AwList(list):
 
 class L2:
     def __init__(self, env, args=(), ideal_bits=True, ideal_zero_test=False, ideal_cmp=False, rb_cap=None, k=30, fork_mod=0,
-                 public_reciprocal=False):
+                 public_reciprocal=False, ideal_mod=False):
         self.env = env
         if env.mode == 'sym':
             from vf import symx
@@ -35,6 +35,8 @@ class L2:
             self._ideal_comparisons()
         if public_reciprocal:
             self._public_reciprocal()
+        if ideal_mod and env.mode == 'sym':            # replays run the real reduction protocol
+            self._ideal_mod()
 
     # ------------------------------------------------------------------ ideal functionalities
     def _ideal_random_bits(self):
@@ -115,6 +117,27 @@ class L2:
         mpc.sgn = sgn
         mpc.is_zero = lambda a: sgn(a, EQ=True)
         env.stubs.add('Runtime.sgn/is_zero -> exact sign (contract established by C01 comparison harnesses)')
+
+    def _ideal_mod(self):
+        """secure integer divmod by a public divisor replaced by its contract (established for the real protocol by C01's
+        division/remainder harnesses); used where several reductions in one call would multiply the mask forks."""
+        env, mpc = self.env, self.mpc
+        from vf import symx
+
+        def divmod_(a, other):
+            other = a._coerce(other)
+            if other is NotImplemented:
+                return NotImplemented
+            stype = type(a)
+            F = stype.field
+            bv = kit.fval(other).__index__()
+            s = kit.signed(env, kit.fval(a), F.modulus)
+            with symx.no_fork():
+                q, r = s // bv, s % bv
+            return stype(F(q)), stype(F(r))
+        self.sectypes.SecureInteger.__divmod__ = divmod_
+        self.sectypes.SecureInteger.__mod__ = lambda a, b: divmod_(a, b)[1]
+        env.stubs.add('SecureInteger.__divmod__(a, public b) -> (a // b, a mod b) (contract established by the C01 division/remainder harnesses; symbolic run only)')
 
     def _public_reciprocal(self):
         """Runtime.reciprocal of a *public* value (as in x // b, where b is coerced to a secure constant):
